@@ -1297,6 +1297,87 @@ def _hs_bit(ex, guard, idv):
     return bv(1, w) << sh
 
 
+# ---- HashMap<u32, V> as a fixed number of slots (present flag, key, value); `hmap_slots` of the executor sizes new maps
+def new_hmap(n, slots=None):
+    if slots is None:
+        slots = [Agg([z3.BoolVal(False), bv(0, 32), None], 'hslot') for _ in range(n)]
+    return Model('hmap', slots=Agg(slots, 'hslots'))
+
+
+def _hmap_of(ex, st, a):
+    v = deref_any(ex, st, a)
+    if not (isinstance(v, Model) and v.kind == 'hmap'):
+        raise Unsupported("not a modelled HashMap: %r" % (v,))
+    return v
+
+
+def hmap_lookup(mp, key):
+    """(found, value) of `key` in the map model (value: structured if-then-else over the slots, None if no slot has one)."""
+    found, val = z3.BoolVal(False), None
+    for sl in reversed(mp.f['slots'].fields):
+        p_, k_, v_ = sl.fields
+        hit = zand(p_, k_ == key)
+        found = zor(hit, found)
+        if v_ is not None:
+            val = v_ if val is None else ite_val(hit, v_, val)
+    return zsimp(found), val
+
+
+def m_hmap_new(ex, m, argv, guard, st, callee):
+    return guard, new_hmap(getattr(ex, 'hmap_slots', 4))
+
+
+def m_hmap_get(ex, m, argv, guard, st, callee):
+    mp, key = _hmap_of(ex, st, argv[0]), deref_any(ex, st, argv[1])
+    found, val = hmap_lookup(mp, key)
+    none = EnumV(ex.defs.find_enum('Option'), bv(0, 64), {'None': ()})
+    if val is None:
+        return guard, none
+    if m.group(1) == 'contains_key':
+        return guard, found
+    return guard, option(ex, found, ValRef(val))
+
+
+def m_hmap_insert(ex, m, argv, guard, st, callee):
+    ref, key, value = argv
+    if not isinstance(ref, PlaceRef):
+        raise Unsupported("HashMap::insert through %s" % type(ref).__name__)
+    mp = _hmap_of(ex, st, ref)
+    slots = mp.f['slots'].fields
+    hits = [zand(sl.fields[0], sl.fields[1] == key) for sl in slots]
+    any_hit = zor(*hits)
+    taken_before = z3.BoolVal(False)
+    new_slots, old = [], None
+    no_free = z3.BoolVal(True)
+    for sl, hit in zip(slots, hits):
+        p_, k_, v_ = sl.fields
+        first_free = zand(znot(p_), znot(taken_before))
+        taken_before = zor(taken_before, znot(p_))
+        no_free = zand(no_free, p_)
+        put = zor(hit, zand(znot(any_hit), first_free))
+        new_slots.append(Agg([zsimp(zor(p_, put)), zsimp(zite(put, key, k_)), value if v_ is None else ite_val(put, value, v_)], 'hslot'))
+        if v_ is not None:
+            old = v_ if old is None else ite_val(hit, v_, old)
+    ex.oblige('bound', zand(guard, znot(any_hit), no_free), 'HashMap model with %d slots exceeded' % len(slots))
+    ex.write_cell(st, ref.cell, ref.path, Model('hmap', slots=Agg(new_slots, 'hslots')))
+    none = EnumV(ex.defs.find_enum('Option'), bv(0, 64), {'None': ()})
+    return guard, (none if old is None else option(ex, zsimp(any_hit), old))
+
+
+def m_result_is(ex, m, argv, guard, st, callee):
+    r = deref_any(ex, st, argv[0])
+    ok = r.discr == bv(0, 64)
+    return guard, (ok if m.group(1) == 'is_ok' else znot(ok))
+
+
+def m_ref_not(ex, m, argv, guard, st, callee):
+    """<&bool as Not>::not / <&uN as Not>::not: negation through a reference."""
+    v = deref_any(ex, st, argv[0])
+    if z3.is_bool(v):
+        return guard, znot(v)
+    return guard, ~v
+
+
 def m_next_power_of_two(ex, m, argv, guard, st, callee):
     """uN::next_power_of_two: the smallest power of two >= x (1 for 0); a result that does not fit panics in debug builds."""
     x = argv[0]
@@ -1790,6 +1871,10 @@ _EX = [None]
 def register(ex):
     _EX[0] = ex
     A = ex.add_model
+    A(r'^(?:std::collections::)?HashMap::<u32, \(.*\)>::new$', m_hmap_new, 'HashMap<u32, V>::new (fixed slots)')
+    A(r'^<(?:std::collections::)?HashMap<u32, \(.*\)> as (?:std::default::)?Default>::default$', m_hmap_new, 'HashMap<u32, V>::default (fixed slots)')
+    A(r'^(?:std::collections::)?HashMap::<u32, \(.*\)>::(get|contains_key)::<u32>$', m_hmap_get, 'HashMap<u32, V>::get/contains_key (fixed slots)')
+    A(r'^(?:std::collections::)?HashMap::<u32, \(.*\)>::insert$', m_hmap_insert, 'HashMap<u32, V>::insert (fixed slots, overflow is a bound obligation)')
     A(r'^(?:std::collections::)?HashSet::<u32>::new$', m_hashset_new, 'HashSet<u32>::new (bit set)')
     A(r'^(?:std::collections::)?HashSet::<u32>::insert$', m_hashset_insert, 'HashSet<u32>::insert (bit set)')
     A(r'^(?:std::collections::)?HashSet::<u32>::contains::<u32>$', m_hashset_contains, 'HashSet<u32>::contains (bit set)')
@@ -1885,6 +1970,8 @@ def register(ex):
     A(r'^(?:core::panicking::|std::rt::)?(?:panic|panic_fmt|panic_explicit|begin_panic|unreachable_display|panic_nounwind|assert_failed|panic_const::\w+)\b.*$', m_panic, 'panic!/unreachable!/assert! failure')
     A(r'^core::panicking::.*$', m_panic, 'panic!/unreachable!/assert! failure')
     A(r'^<([iu](?:8|16|32|64|128|size)) as (?:std::convert::)?From<([iu](?:8|16|32|64|128|size)|bool)>>::from$', m_from_int, 'integer From (widening)')
+    A(r'^(?:std::result::)?Result::<.*>::(is_ok|is_err)$', m_result_is, 'Result::is_ok/is_err')
+    A(r'^<&(?:bool|[iu](?:8|16|32|64|128|size)) as (?:std::ops::)?Not>::not$', m_ref_not, 'Not::not through a reference')
     A(r'^core::num::<impl (u(?:8|16|32|64|128|size))>::next_power_of_two$', m_next_power_of_two, 'uN::next_power_of_two')
     A(r'^core::num::<impl ([iu](?:8|16|32|64|128|size))>::checked_(add|sub|mul)$', m_checked, 'checked_add/sub/mul')
     A(r'^core::num::<impl ([iu](?:8|16|32|64|128|size))>::wrapping_(add|sub|mul)$', m_wrapping, 'wrapping_add/sub/mul')
